@@ -232,8 +232,32 @@ class Compu:
         self.itype = itype
         self.ptype = ptype
         self.cat = model["cat"]
-        if self.cat not in ("IDENTICAL", "LINEAR", "TEXTTABLE"):
+        if self.cat not in ("IDENTICAL", "LINEAR", "TEXTTABLE", "TAB-INTP"):
             raise Skip(f"compu category {self.cat} not modelled by refodx")
+        if self.cat == "TAB-INTP":
+            # only the simple form: integer points, strictly increasing in both coordinates
+            self.pts = [(Fraction(sc["lo"][0]), Fraction(sc["const"]["v"]))
+                        for sc in model["i2p"]["scales"]]
+            if len(self.pts) < 2 or any(a[0] >= b[0] or a[1] >= b[1]
+                                        for a, b in zip(self.pts, self.pts[1:])):
+                raise Skip("TAB-INTP table that is not strictly increasing")
+
+    def _interp(self, x: Fraction, src: int) -> Optional[Fraction]:
+        dst = 1 - src
+        pts = self.pts
+        if x < pts[0][src] or x > pts[-1][src]:
+            return None
+        for a, b in zip(pts, pts[1:]):
+            if a[src] <= x <= b[src]:
+                return a[dst] + (x - a[src]) * (b[dst] - a[dst]) / (b[src] - a[src])
+        return None
+
+    def _round(self, y: Fraction, ttype: str) -> Any:
+        if is_int_type(ttype):
+            if y.denominator == 2:
+                raise Skip("rounding tie")
+            return int(math.floor(y + Fraction(1, 2)))
+        return float(y)
 
     def p2i(self, p: Any) -> Any:
         if self.cat == "IDENTICAL":
@@ -242,6 +266,15 @@ class Compu:
             if is_int_type(self.itype) and not isinstance(p, int):
                 raise Skip("identical with differing types")
             return p
+        if self.cat == "TAB-INTP":
+            if not py_type_ok(p, self.ptype):
+                raise Unrepresentable("wrong-type", f"{type(p).__name__} for {self.ptype}")
+            if isinstance(p, float) and (math.isnan(p) or math.isinf(p)):
+                raise Skip("non-finite")
+            x = self._interp(Fraction(p), 1)
+            if x is None:
+                raise Unrepresentable("outside-compu-limits", str(p))
+            return self._round(x, self.itype)
         if self.cat == "LINEAR":
             if not py_type_ok(p, self.ptype):
                 raise Unrepresentable("wrong-type", f"{type(p).__name__} for {self.ptype}")
@@ -278,6 +311,13 @@ class Compu:
     def i2p(self, i: Any) -> Any:
         if self.cat == "IDENTICAL":
             return i
+        if self.cat == "TAB-INTP":
+            if isinstance(i, float) and (math.isnan(i) or math.isinf(i)):
+                raise Skip("non-finite internal value")
+            y = self._interp(Fraction(i), 0)
+            if y is None:
+                raise Invalid(f"internal value {i} outside the interpolation table")
+            return self._round(y, self.ptype)
         if self.cat == "LINEAR":
             sc = self.m["i2p"]["scales"][0]
             if isinstance(i, float) and (math.isnan(i) or math.isinf(i)):
